@@ -17,12 +17,12 @@ ROOTS = ("ov_backoff",)
 # ---------------------------------------------------------------- parsing
 def parse_state(tok):
     i, rest = tok.split("=", 1)
-    nums, errs, sleep, times, cfgs, types = rest.split("|")
-    mx, total, excl, errnum = [int(x) for x in nums.split(",")]
+    nums, errs, sleep, times, cfgs, types, text = rest.split("|")
+    mx, total, excl, errnum, ctx, vrs, kil, ttimes = [int(x) for x in nums.split(",")]
     dm = lambda s: {int(k): int(v) for k, v in (e.split(":") for e in s.split(".") if e)}
     li = lambda s: [int(x) for x in s.split(".") if x != ""]
     return int(i), dict(max=mx, total=total, excl=excl, errnum=errnum, errs=li(errs), sleep=dm(sleep), times=dm(times),
-                        cfgs=li(cfgs), types=li(types))
+                        cfgs=li(cfgs), types=li(types), ctx=ctx, vars=vrs, killed=kil, ttimes=ttimes, text=text)
 
 
 COUNTERS = ("total", "excl", "errnum", "errs", "sleep", "times", "cfgs")
@@ -38,30 +38,39 @@ class Seq:
         f = head.split("\t")
         self.no, self.cls = int(f[1]), f[2]
         self.excl = {int(k): int(v) for k, v in (e.split(":") for e in f[3].split(";") if e)}
-        self.lf = int(f[4])
+        self.lf = set(int(x) for x in f[4].split(";") if x)
         self.head = head
         self.lines = []
 
 
 def split_seqs(text):
-    cfgs, seqs, cur, cfg_lines = {}, [], None, []
+    cfgs, seqs, cur, cfg_lines, xl = {}, [], None, [], []
     for l in text.splitlines():
+        if l.startswith("X"):
+            xl.append(l); continue
         if l.startswith("O\t"):
             cur.lines.append(l)
         elif l.startswith("S\t"):
             cur = Seq(l); seqs.append(cur)
         elif l.startswith("CFG\t"):
             f = l.split("\t")
-            cfgs[int(f[1])] = dict(name=int(f[2]), base=int(f[3]), cap=int(f[4]), jit=int(f[5]), err=int(f[6]))
+            cfgs[int(f[1])] = dict(name=int(f[2]), base=int(f[3]), cap=int(f[4]), jit=int(f[5]), err=int(f[6]),
+                                   text=f[7] if len(f) > 7 else "", govar=f[8] if len(f) > 8 else "-")
             cfg_lines.append(l)
-    return cfgs, seqs
+    return cfgs, seqs, xl
 
 
 # ---------------------------------------------------------------- property oracles on the implementation
-def oracles(cfgs, sq, stats):
+def budget_hi(m):
+    return m if m > 0 else None
+
+
+def oracles(cfgs0, sq, stats):
     """returns list of (oracle, op index, detail, finding_class) for one sequence"""
     fails = []
-    capmax = max(c["cap"] for c in cfgs.values())
+    cfgs = {k: dict(v) for k, v in cfgs0.items()}     # SetErrors / SetBackoffFnCfg change it during the sequence
+    capmax = max([c["cap"] for c in cfgs.values()] + [1000])
+    ghost, stale = {}, set()
     st, parent, ctx_of, vars_of, noop, fn = {}, {}, {}, {}, {}, {}
     ctx_parent, ctx_done, killed = [], [], {0: 0}
     nvars, merged_seen, resetmax_seen = 1, False, False
@@ -92,15 +101,32 @@ def oracles(cfgs, sq, stats):
         if res == "panic":
             bad("no_panic", k, "implementation panicked"); break
         states = dict(parse_state(t) for t in f[arrow + 2:])
+        if op == "B" and args[0] not in states:      # long sequences dump the state rarely: only the step bounds are checked
+            i, cid, maxms, errid, api, sleep = args
+            stale.add(i)
+            if res.split(":")[0] in ("ok", "killed"):
+                c = cfgs[cid]; key = (i, c["name"]); real = int(res.split(":")[-1])
+                if key not in fn:
+                    fn[key] = [max(2, c["base"]) if c["name"] not in sq.lf else None, c["cap"], c["jit"], 0]
+                base, cap, jit, att = fn[key]
+                stats["o_step_bounds"] += 1
+                if base is not None and jit in (1, 3):
+                    v = min(cap, base * 2 ** att)
+                    lo, hi_ = (v, v) if jit == 1 else (v // 2, v // 2 + v // 2 - 1)
+                    if not (lo <= sleep <= hi_) or real != (maxms if 0 <= maxms < sleep else sleep) or real < (1 if maxms != 0 else 0):
+                        bad("C20_step_bounds", k, "attempt %d: sleep %d / accounted %d outside [%d,%d]" % (att, sleep, real, lo, hi_))
+                fn[key][3] += 1
+            continue
         if op == "V":
             killed[nvars] = 0; nvars += 1
         elif op == "N":
             i = len(parent); parent[i] = None
             ctx_parent.append(None); ctx_done.append(False); ctx_of[i] = len(ctx_parent) - 1
             noop[i] = args[2] == 2; vars_of[i] = None if args[2] == 2 else (0 if args[2] == 1 else args[1])
+            ghost[i] = budget_hi(states[i]["max"])
         elif op in ("F", "C"):
             src, i = args[0], len(parent)
-            noop[i] = False; vars_of[i] = vars_of[src]
+            noop[i] = False; vars_of[i] = vars_of[src]; ghost[i] = ghost[src]
             if op == "F":
                 parent[i] = src; ctx_parent.append(ctx_of[src]); ctx_done.append(False); ctx_of[i] = len(ctx_parent) - 1
             else:
@@ -111,6 +137,18 @@ def oracles(cfgs, sq, stats):
                 bad("C20_fork_clone_start", k, "new back-offer does not start from the parent's accounting (or the parent changed)")
         elif op == "X":
             ctx_done[args[0]] = True
+        elif op == "SE":
+            cfgs[args[0]]["err"] = args[1]
+        elif op == "SF":
+            cfgs[args[0]].update(base=args[1], cap=args[2], jit=args[3])
+        elif op == "SC":
+            ctx_of[args[0]] = args[1]
+            if not same(states[args[0]], st[args[0]]):
+                bad("C20_accounting", k, "SetCtx changed the accounting")
+        elif op == "MN":
+            stats["o_api"] += 1
+            if res != "-" or not same(states[args[0]], st[args[0]]):
+                bad("C20_accounting", k, "MayBackoffForRegionError(nil / real EpochNotMatch) must do nothing, got " + res)
         elif op == "K":
             killed[args[0]] = args[1]
         elif op in ("R", "RM"):
@@ -120,6 +158,7 @@ def oracles(cfgs, sq, stats):
             if op == "RM":
                 resetmax_seen = True
             s = states[i]
+            ghost[i] = budget_hi(s["max"])
             if s["total"] != 0 or s["excl"] != 0:
                 bad("reset", k, "Reset left sleep time behind")
         elif op == "M":
@@ -127,6 +166,8 @@ def oracles(cfgs, sq, stats):
             stats["o_merge_exact"] += 1
             if anc(i, j):
                 merged_seen = True
+                own = budget_hi(st[i]["max"])
+                ghost[i] = max(own, ghost[j]) if (own is not None and ghost[j] is not None) else None
                 a, b = states[i], st[j]
                 if any(a[c] != b[c] for c in COUNTERS) or a["max"] != st[i]["max"]:
                     bad("C20_merge_exact", k, "after UpdateUsingForked the ancestor's counters differ from the fork's: %s" %
@@ -135,8 +176,13 @@ def oracles(cfgs, sq, stats):
                 if not same(states[i], st[i]) or (j in states and not same(states[j], st[j])):
                     bad("C20_merge_exact", k, "UpdateUsingForked of a non-descendant changed something")
         elif op == "B":
-            i, cid, maxms, errid, sleep = args
+            i, cid, maxms, errid, api, sleep = args
+            if i in stale:                       # first full dump after a gap: only refresh
+                stale.discard(i); st[i] = states[i]; continue
             c, pre, post = cfgs[cid], st[i], states[i]
+            if (api == 1 and maxms != -1) or (api == 2 and cid != 5) or (api in (3, 4) and (cid != 2 or maxms != -1)):
+                bad("harness", k, "driver used an API variant outside its meaning")
+            stats["o_api"] += 1 if api else 0
             name = c["name"]
             is_ex = name in sq.excl
             canc, kl = cancelled(ctx_of[i]), (killed.get(vars_of[i], 0) if vars_of[i] is not None else 0)
@@ -147,7 +193,7 @@ def oracles(cfgs, sq, stats):
                 # closure state tracked independently (first config used for the name since creation / reset)
                 key = (i, name)
                 if key not in fn:
-                    fn[key] = [max(2, c["base"]) if name != sq.lf else None, c["cap"], c["jit"], 0]
+                    fn[key] = [max(2, c["base"]) if name not in sq.lf else None, c["cap"], c["jit"], 0]
                 base, cap, jit, att = fn[key]
                 want = maxms if (0 <= maxms < sleep) else sleep
                 if not (0 <= real <= sleep <= cap) or real != want or (maxms >= 0 and real > maxms):
@@ -209,16 +255,86 @@ def oracles(cfgs, sq, stats):
                             bad("C20_longest", k, "budget exhausted: returned %s, the longest sleeper(s) %s call for %s" %
                                 (res, sorted(n for n, v in nonex.items() if v == m), sorted(ok_set) or "a config that is missing"),
                                 "longest_kind_config_missing_after_merge" if (merged_seen and res == "orig") else "longest_kind_wrong")
-        # global budget invariant (C20_budget as stated: no ResetMaxSleep together with a merge)
+        # global budget invariant, all sequences (C20_budget_general): h = largest budget that took part (ghost)
         for i, s in states.items():
-            if s["max"] > 0 and not (merged_seen and resetmax_seen):
+            h = ghost.get(i)
+            if h is not None:
                 stats["o_budget"] += 1
-                if not (s["total"] - s["excl"] < s["max"] + capmax and s["excl"] < max(L, s["max"]) + capmax and 0 <= s["excl"] <= s["total"]):
-                    bad("C20_budget", k, "total %d excluded %d exceed budget %d + one step" % (s["total"], s["excl"], s["max"]))
+                if not (s["max"] <= h and s["total"] - s["excl"] < h + capmax and s["excl"] < max(L, h) + capmax and 0 <= s["excl"] <= s["total"]):
+                    bad("C20_budget", k, "total %d excluded %d exceed the largest budget involved %d (own %d) + one step" % (s["total"], s["excl"], h, s["max"]))
+                if not (merged_seen and resetmax_seen) and s["max"] > 0 and h != s["max"]:
+                    bad("harness", k, "oracle ghost differs from the own budget without ResetMaxSleep+merge")
+            # exported getters against the tracked world
+            stats["o_getters"] += 1
+            want_k = killed.get(vars_of[i], 0) if vars_of[i] is not None else 0
+            want_text = "" if s["total"] == 0 else " backoff(%dms [%s])" % (s["total"], " ".join(cfgs0[x]["text"] for x in s["cfgs"]))
+            if (s["ctx"] != ctx_of[i] or s["vars"] != (-1 if vars_of[i] is None else vars_of[i]) or s["killed"] != want_k
+                    or s["ttimes"] != sum(s["times"].values()) or s["text"] != want_text):
+                bad("C20_getters", k, "GetCtx/GetVars/CheckKilled/GetTotalBackoffTimes/String disagree with the history: %s" %
+                    {x: s[x] for x in ("ctx", "vars", "killed", "ttimes", "text")})
             st[i] = s
         if len(fails) >= 4:
             break
     return fails
+
+
+# ---------------------------------------------------------------- expo on the real code (X lines)
+def expo_oracle(xl, stats):
+    """X base cap n => v : v = min(cap, base*2^n) exactly (python big ints), inside [0,cap], monotone in n.
+    XP lines (cap >= 2^53, outside the model's domain) are only summarised."""
+    fails, probes, last = [], {"n": 0, "negative": [], "inexact": 0}, {}
+    for l in xl:
+        f = l.split("\t")
+        b, c, n, v = int(f[1]), int(f[2]), int(f[3]), int(f[5])
+        want = min(c, b * 2 ** n)
+        if f[0] == "XP":
+            probes["n"] += 1
+            if v < 0:
+                probes["negative"].append(l.replace("\t", " "))
+            elif v != want:
+                probes["inexact"] += 1
+            continue
+        stats["o_expo"] += 1
+        if v != want or not (0 <= v <= c):
+            fails.append(("C20_step_bounds", l, "expo(%d,%d,%d) = %d, exact value %d" % (b, c, n, v, want)))
+    return fails, probes
+
+
+# ---------------------------------------------------------------- the real table of kinds (config/retry/config.go)
+def table_check(cfgs, lf, stats):
+    """instantiates C20_table_applies on the kinds read from the code in this run; returns (problems, info)"""
+    import re
+    problems, info = [], {}
+    real = {c["govar"]: (k, c) for k, c in cfgs.items() if c["govar"] != "-"}
+    src = open(os.path.join(vlib.REPO, "config", "retry", "config.go")).read()
+    declared = re.findall(r"^\s*(Bo\w+)\s*=\s*NewConfig\(", src, flags=re.M)
+    missing = [d for d in declared if d not in real]
+    if missing:
+        problems.append(("uncovered", "config.go declares kinds the driver does not drive: %s" % missing, None))
+    info["kinds"] = {g: [c["base"], c["cap"], c["jit"]] for g, (k, c) in sorted(real.items())}
+    for g, (k, c) in sorted(real.items()):
+        stats["o_table"] += 1
+        ok = c["base"] > 0 and c["cap"] >= 2 and 1 <= c["jit"] <= 4 and (c["jit"] != 4 or (max(2, c["base"]) <= c["cap"] and c["name"] not in lf))
+        if not ok:
+            problems.append(("kind", "kind %s (base %d, cap %d, jitter %d) violates 0 < base, 2 <= cap, jitter in 1..4 (Decorr: max(2,base) <= cap)" %
+                             (g, c["base"], c["cap"], c["jit"]), g))
+    d = os.path.join(vlib.BUILD, "coq_cases"); os.makedirs(d, exist_ok=True)
+    z = lambda v: "(%d)" % v
+    rows = ["mkCfg %s %s %s %s %s %s" % tuple(z(x) for x in (k, c["name"], c["base"], c["cap"], c["jit"], c["err"])) for g, (k, c) in sorted(real.items())]
+    with open(os.path.join(d, "C20Table.v"), "w") as fh:
+        fh.write("(* generated by checks/C20.py from the kinds the driver read out of config/retry in this run *)\n"
+                 "From Coq Require Import ZArith List. Import ListNotations. Open Scope Z_scope.\n"
+                 "From Verif Require Import Backoff.Model Backoff.ProofsExt Backoff.Props.\n"
+                 "Definition lf : list Z := [%s].\nDefinition table : list cfg := [\n  %s].\n"
+                 "Lemma table_ok : forallb (cfg_okb lf) table = true. Proof. vm_compute. reflexivity. Qed.\n"
+                 "Definition table_instance := C20_table_applies lf table table_ok.\nCheck table_instance.\n"
+                 "Lemma table_cap_val : table_cap table = %d. Proof. vm_compute. reflexivity. Qed.\n"
+                 % ("; ".join(z(x) for x in sorted(lf)), ";\n  ".join(rows), max([c["cap"] for g, (k, c) in real.items()] + [0])))
+    rc, out = vlib.sh(["coqc", "-R", os.path.join(vlib.COQ, "theories"), "Verif", "C20Table.v"], cwd=d, timeout=300)
+    info["coq_instance"] = "ok" if rc == 0 else out[-400:]
+    if rc != 0 and not any(p[0] == "kind" for p in problems):
+        problems.append(("coq", "the generated instance of C20_table_applies does not check: " + out[-300:], None))
+    return problems, info
 
 
 # ---------------------------------------------------------------- pipeline
@@ -259,7 +375,7 @@ def main(tier, replay):
     env = vlib.goenv(); env["VERIF_SEED"] = str(vlib.SEED); env["VERIF_TIER"] = tier
     okm, modelrun = vlib.build_model("Backoff")
     okg, exe = vlib.go_build("backoff", roots=ROOTS)
-    stats = {k: 0 for k in ("o_budget", "o_step_bounds", "o_longest", "o_cancel", "o_fork_clone_start", "o_merge_exact")}
+    stats = {k: 0 for k in ("o_budget", "o_step_bounds", "o_longest", "o_cancel", "o_fork_clone_start", "o_merge_exact", "o_api", "o_getters", "o_expo", "o_table")}
     mstats, classes, samples, mism, pfails, ofails = {}, {}, [], [], [], []
     distinct = 0
     if okg and okm:
@@ -269,7 +385,7 @@ def main(tier, replay):
             v.violation({"kind": "harness", "correspondence": "Backoff driver", "error": err}, has_input=False)
         else:
             lines, cmp_out = res
-            cfgs, seqs = split_seqs(lines)
+            cfgs, seqs, xl = split_seqs(lines)
             byno = {s.no: s for s in seqs}
             for l in cmp_out.splitlines():
                 f = l.split("\t")
@@ -281,6 +397,19 @@ def main(tier, replay):
                     mism.append(f[1:])
                 elif f[0] == "PROPFAIL":
                     pfails.append(f[1:])
+            xfails, probes = expo_oracle(xl, stats)
+            cov["expo_probes_outside_domain"] = probes
+            for name, l, detail in xfails[:1]:
+                v.violation({"kind": "property-oracle", "oracle": name, "what": detail, "finding_class": "expo_inexact", "case": [l]})
+                ofails.append((None, name, 0, detail, "expo_inexact"))
+            if not replay:
+                tprobs, tinfo = table_check(cfgs, seqs[0].lf if seqs else set(), stats)
+                cov["kinds_table"] = tinfo
+                for kind, detail, g in tprobs[:2]:
+                    v.violation({"kind": "property-oracle" if g else "table", "oracle": "C20_table_applies", "what": detail,
+                                 "theorem_or_file": "C20_table_applies / build/coq_cases/C20Table.v", "case": [g] if g else []}, has_input=bool(g))
+                    if g:
+                        ofails.append((None, "C20_table_applies", 0, detail, ""))
             seen = set()
             for s in seqs:
                 for name, k, detail, cls in oracles(cfgs, s, stats):
@@ -294,7 +423,7 @@ def main(tier, replay):
             cfg_lines = [l for l in lines.splitlines() if l.startswith("CFG\t")]
             shown = set()
             for s, name, k, detail, cls in ofails:
-                if name in shown:
+                if s is None or name in shown:
                     continue
                 shown.add(name)
                 v.violation({"kind": "property-oracle", "oracle": name, "what": detail, "finding_class": cls, "class": s.cls,
@@ -309,6 +438,9 @@ def main(tier, replay):
                 shown.add("C20_step_bounds")
             if mism and not ofails and not pfails:
                 for m in mism[:3]:
+                    if int(m[0]) < 0:
+                        v.violation({"kind": "correspondence", "correspondence": "Backoff model expo vs config/retry expo", "what": m[2], "case": [m[3:]]}, has_input=False)
+                        continue
                     s = byno[int(m[0])]; k = int(m[1]) - 1
                     v.violation({"kind": "correspondence", "correspondence": "Backoff model vs config/retry", "what":
                                  "model and implementation disagree (%s); none of the %d oracle evaluations of this run failed" % (m[2], sum(stats.values())),
